@@ -151,6 +151,8 @@ def lpc_e(e, names):
         return "%s(%s)" % (e[1], ", ".join(lpc_e(x, names) for x in e[2])) if e[2] is not None else e[1]
     if k == "lam2":              # anonymous functional (: $1 op $2 :) applied to two arguments
         return "evaluate((: $1 %s $2 :), %s, %s)" % (BINOPS[e[1]], lpc_e(e[2], names), lpc_e(e[3], names))
+    if k == "id":                # identifier inside a macro body (parameter, variable or efun name - decided by substitution)
+        return e[1]
     if k == "paren":
         return lpc_e(e[1], names)
     raise ValueError(e)
@@ -1249,8 +1251,114 @@ class C03(Prop):
         toks += ["plus", "abs", "plus"]
         return E.Case(cid, ["maptrace " + " ".join(toks)], {"origin": "generated", "family": "maptrace"})
 
+    # ---- macros: parameter names vs body identifiers -------------------------------------------------------------
+    MAC_POOL = ["a", "ab", "abc", "a1", "_a", "b", "ba", "b_", "i", "ij", "i2", "n", "nn", "n0", "c", "cc", "d", "dd", "d1",
+                "j", "jj", "g", "g0x", "g00", "g1_", "val", "v", "x1", "strlen2", "size", "sizeof_", "f_ad", "h_"]
+    MAC_VARS = {"a": ("l", A), "b": ("l", B), "c": ("l", C), "d": ("l", D), "i": ("l", LI), "j": ("l", LJ), "n": ("l", LN),
+                "g0": ("g", 0), "g1": ("g", 1), "g3": ("g", 3)}
+
+    def mac_subst(self, body, env):
+        """textbook substitution: an identifier is replaced iff it EQUALS a parameter name; other identifiers are the
+        variables of the calling function"""
+        if isinstance(body, tuple):
+            if body and body[0] == "id":
+                if body[1] in env:
+                    return env[body[1]]
+                return self.MAC_VARS[body[1]]
+            return tuple(self.mac_subst(x, env) for x in body)
+        if isinstance(body, list):
+            return [self.mac_subst(x, env) for x in body]
+        return body
+
+    def mac_body(self, rng, ids, depth):
+        if depth == 0 or rng.chance(1, 4):
+            if rng.chance(1, 6):
+                return I(rng.range(0, 9))
+            return ("id", rng.choice(ids))
+        k = rng.weighted([("bin", 6), ("call", 1), ("cond", 1), ("efun", 1), ("idx", 1)])
+        if k == "bin":
+            return ("bin", rng.choice(["add", "sub", "mul"]), self.mac_body(rng, ids, depth - 1), self.mac_body(rng, ids, depth - 1))
+        if k == "call":
+            return ("call", "f_add", [self.mac_body(rng, ids, depth - 1), self.mac_body(rng, ids, depth - 1)], "local")
+        if k == "cond":
+            return ("cond", ("bin", "lt", self.mac_body(rng, ids, depth - 1), I(50)), self.mac_body(rng, ids, depth - 1), I(rng.range(1, 9)))
+        if k == "efun":
+            return ("efun", "strlen", [("bin", "add", S(b"len"), self.mac_body(rng, ids, depth - 1))])
+        return ("idx", Arr([I(40), self.mac_body(rng, ids, depth - 1), I(41)]), I(1))
+
+    def mac_arg(self, rng):
+        k = rng.weighted([("lit", 4), ("var", 3), ("commas", 4), ("expr", 2), ("nested", 2)])
+        if k == "lit":
+            return I(rng.choice([0, 1, 2, 10, 20, -3, 2 ** 32, 255]))
+        if k == "var":
+            return rng.choice([L(A), L(B), L(LI), L(LN), G(0), G(3)])
+        if k == "commas":
+            return rng.choice([("call", "f_add", [I(rng.range(1, 9)), I(rng.range(1, 9))], "local"),
+                               ("idx", Arr([I(7), I(8), I(9)]), I(rng.range(0, 2))),
+                               ("efun", "strlen", [S(rng.choice([b"x,y", b"a,(b", b"),", b"'"]))]),
+                               ("idx", Map([(I(1), I(5)), (I(2), I(6))]), I(rng.range(1, 2))),
+                               ("call", "f_sub", [("call", "f_mul", [I(3), I(4)], "local"), L(LJ)], "local")])
+        if k == "expr":
+            return ("bin", rng.choice(["add", "sub", "mul"]), rng.choice([L(A), L(LI), I(3)]), I(rng.range(1, 5)))
+        return ("macro", "SQ", [I(rng.range(2, 6))], ("bin", "mul", I(0), I(0)))   # patched below
+
+    def fam_macrosubst(self, rng, cid):
+        pre = [("expr", ("asg", L(A), I(11))), ("expr", ("asg", L(B), I(22))), ("expr", ("asg", L(C), I(33))), ("expr", ("asg", L(D), I(44))),
+               ("expr", ("asg", L(LI), I(5))), ("expr", ("asg", L(LJ), I(6))), ("expr", ("asg", L(LN), I(7))),
+               ("expr", ("asg", G(0), I(100))), ("expr", ("asg", G(1), I(200))), ("expr", ("asg", G(3), I(300)))]
+        defs = ["#define SQ(x) ((x) * (x))"]
+        calls, hands = [], []
+        for m in range(rng.range(1, 3)):
+            np_ = rng.range(1, 3)
+            params = []
+            while len(params) < np_:
+                c = rng.choice(self.MAC_POOL)
+                if c not in params:
+                    params.append(c)
+            # body identifiers: the parameters, variables whose names are prefixes / extensions of parameters, and others
+            ids = list(params) * 2 + [v for v in self.MAC_VARS if any(q.startswith(v) or v.startswith(q) for q in params)]
+            ids += [rng.choice(list(self.MAC_VARS))]
+            body = self.mac_body(rng, ids, rng.range(1, 3))
+            name = "MC%d" % m
+            style = rng.weighted([("plain", 4), ("cont", 2), ("spaces", 1)])
+            text = lpc_e(body, NAMES)
+            if style == "cont":
+                cut = text.find(" ", len(text) // 2)
+                if cut > 0:
+                    defs.append("#define %s(%s) %s \\" % (name, ", ".join(params), text[:cut]))
+                    defs.append("   " + text[cut:])
+                else:
+                    defs.append("#define %s(%s) %s" % (name, ", ".join(params), text))
+            elif style == "spaces":
+                defs.append("#define %s( %s )   %s  " % (name, " , ".join(params), text))
+            else:
+                defs.append("#define %s(%s) %s" % (name, ",".join(params), text))
+            for _ in range(rng.range(1, 2)):
+                args = []
+                for _q in params:
+                    a = self.mac_arg(rng)
+                    if a[0] == "macro":
+                        v = a[2][0]
+                        a = ("macro", "SQ", [v], ("bin", "mul", v, v))
+                    args.append(a)
+                exp = self.mac_subst(body, dict(zip(params, args)))
+                calls.append(("macro", name, args, exp))
+                hands.append(exp)
+        # a macro that uses other macros in its body (rescanning) and an object-like macro naming a variable
+        defs.append("#define TWICE_SQ(q1) (SQ(q1) + SQ(q1))")
+        defs.append("#define VAR_N n")
+        v = self.mac_arg(rng)
+        if v[0] == "macro":
+            v = I(4)
+        calls.append(("macro", "TWICE_SQ", [v], ("bin", "add", ("bin", "mul", v, v), ("bin", "mul", v, v))))
+        hands.append(("bin", "add", ("bin", "mul", v, v), ("bin", "mul", v, v)))
+        calls.append(("macro", "VAR_N", None, L(LN)))
+        hands.append(L(LN))
+        fns = [pre + [("ret", Arr(calls))], pre + [("ret", Arr(hands))]]
+        return make_case(cid, fns, defines=defs, meta={"origin": "generated", "family": "macrosubst"})
+
     FAMS = [("fam_binop", 9), ("fam_unop", 2), ("fam_incdec", 3), ("fam_index", 5), ("fam_range", 5), ("fam_lvalue", 6),
-            ("fam_switch", 6), ("fam_loop", 6), ("fam_assignop", 5), ("fam_literal", 2), ("fam_rewrite", 4), ("fam_macro", 3), ("fam_calls", 5), ("fam_mapalg", 7), ("fam_maptrace", 5)]
+            ("fam_switch", 6), ("fam_loop", 6), ("fam_assignop", 5), ("fam_literal", 2), ("fam_rewrite", 4), ("fam_macro", 3), ("fam_calls", 5), ("fam_mapalg", 7), ("fam_maptrace", 5), ("fam_macrosubst", 7)]
 
     def generate(self, rng, n, tier):
         out = []
@@ -1327,6 +1435,9 @@ class C03(Prop):
         mm1, mm2 = Map([(I(1), I(2)), (I(7), I(8))]), Map([(I(2), I(3)), (I(4), I(5))])
         mk("map-muleq", [[("expr", ("asg", L(A), mm1)), ("expr", ("asg", L(B), mm2)), ("expr", ("aop", "mul", L(A), L(B))), ("ret", L(A))],
                          [("expr", ("asg", L(A), mm1)), ("expr", ("asg", L(B), mm2)), ("ret", ("bin", "mul", L(A), L(B)))]])
+        mk("macro-prefix-param", [[("expr", ("asg", L(A), I(3))), ("ret", Arr([("macro", "PICK", [I(10), I(20)], I(20)), ("macro", "SCALE", [I(5)], ("bin", "mul", L(A), I(5)))]))],
+                                  [("expr", ("asg", L(A), I(3))), ("ret", Arr([I(20), ("bin", "mul", L(A), I(5))]))]],
+           defines=["#define PICK(ab, a) (a)", "#define SCALE(a1) (a * (a1))"])
         mk("diveq-int-real-big", [[("expr", ("asg", L(A), I(2 ** 40))), ("expr", ("aop", "div", L(A), Fl(1.0))), ("ret", L(A))]])
         return Bc
 
